@@ -27,7 +27,7 @@ MaxPos(r, s) == LET ps == {e.pos : e \in Of(r, s)} IN
 Visible(r, s, p) == {e \in r : s \in e.seqs /\ e.pos <= p /\ e.pos >= p - W}
 Min(S) == CHOOSE x \in S : \A y \in S : x <= y
 
-Init == /\ ref = {} /\ cfg = [w |-> 0, cells |-> 0, shift |-> TRUE, t |-> 0]
+Init == /\ ref = {} /\ cfg = [w |-> 0, cells |-> 0, shift |-> TRUE, t |-> 0, wrapped |-> FALSE]
         /\ skip = FALSE /\ l = 1 /\ nbad = 0
 
 \* report: property monitors that failed on this line
@@ -61,10 +61,11 @@ Fwd(e) ==
       \cup (IF ~e.err /\ \E i \in 1..n : \E x \in r1 : e.batch[i] \in x.ev /\ x.pos <= e.pos[i] /\ x.pos >= e.pos[i] - W
                THEN {"window-entry-missing"} ELSE {})
       \cup (IF e.layerdiff THEN {"layers-or-padding-rows-differ"} ELSE {})
-      drift == IF e.err /\ fits THEN {"refused-but-not-full"} ELSE {}
+      \* inside a WrapperCache a batch is also refused (and rolled back) when the sibling cache is full
+      drift == IF e.err /\ fits /\ ~cfg.wrapped THEN {"refused-but-not-full"} ELSE {}
   IN /\ ref' = r1
      /\ Report(flags, drift)
-     /\ skip' = (skip \/ (e.err /\ fits) \/ (~e.err /\ ~fits))
+     /\ skip' = (skip \/ (e.err /\ fits /\ ~cfg.wrapped) \/ (~e.err /\ ~fits))
      /\ UNCHANGED cfg
 
 Copy(e) ==
@@ -106,7 +107,7 @@ CanResume(e) ==
 
 Reset(e) ==
   /\ ref' = {} /\ skip' = FALSE
-  /\ cfg' = [w |-> e.w, cells |-> e.cells, shift |-> e.shift, t |-> e.t]
+  /\ cfg' = [w |-> e.w, cells |-> e.cells, shift |-> e.shift, t |-> e.t, wrapped |-> e.wrapped]
   /\ nbad' = nbad
 
 Step ==
